@@ -668,10 +668,13 @@ class DefaultModelInputConverter(ModelInputConverter):
       return None
     elif not np.isfinite(value) and not (
         self._should_clip
-        and self.parameter_config.type == pyvizier.ParameterType.DOUBLE
+        and (
+            self.parameter_config.type == pyvizier.ParameterType.DOUBLE
+            or self.output_spec.type == NumpyArraySpecType.CONTINUOUS
+        )
     ):
-      # NOTE: An infinite value of a DOUBLE parameter (e.g. a huge feature
-      # unscaled through exp()) is clipped to the bounds below.
+      # NOTE: An infinite value of a DOUBLE or continuified parameter (e.g. a
+      # huge feature unscaled through exp()) is clipped to the bounds below.
       return None
     elif self.parameter_config.type == pyvizier.ParameterType.DOUBLE:
       # Input parameter was DOUBLE. Output is also DOUBLE.
@@ -685,6 +688,12 @@ class DefaultModelInputConverter(ModelInputConverter):
     elif self.output_spec.type == NumpyArraySpecType.CONTINUOUS:
       # The parameter config is originally discrete, but continuified.
       # Round to the closest number.
+      if not np.isfinite(value):
+        value = np.clip(
+            value,
+            min(self.parameter_config.feasible_values),
+            max(self.parameter_config.feasible_values),
+        )
       diffs = np.abs(
           np.asarray(self.parameter_config.feasible_values, dtype=self.dtype)
           - value
